@@ -3,5 +3,6 @@ CONSTANTS
   ReadData = TRUE
   ReadRootPacks = TRUE
   VerifyFileHash = FALSE
+  ReadAllCopies = TRUE
 INVARIANTS Sound Undamaged
 CHECK_DEADLOCK FALSE
